@@ -731,9 +731,9 @@ namespace awkward {
       return NumpyArray(out).getitem_at_nowrap(0);
     }
     else {
-      return std::make_shared<UnmaskedArray>(Identities::none(),
-                                             util::Parameters(),
-                                             content_.get()->num(posaxis, depth));
+      return UnmaskedArray(Identities::none(),
+                           util::Parameters(),
+                           content_.get()->num(posaxis, depth)).simplify_optiontype();
     }
   }
 
@@ -927,10 +927,10 @@ namespace awkward {
       return localindex_axis0();
     }
     else {
-      return std::make_shared<UnmaskedArray>(
+      return UnmaskedArray(
         identities_,
         util::Parameters(),
-        content_.get()->localindex(posaxis, depth));
+        content_.get()->localindex(posaxis, depth)).simplify_optiontype();
     }
   }
 
